@@ -458,9 +458,9 @@ def check_mutate(recipe, ctx):
 
 SUBS = [
     Sub('read', check_read, gen=gen_read, quick=5000, thorough=15000,
-        floors={'shared-or-cyclic': 0.2, 'starstar': 0.2, 'wild-2': 0.1, 'exp-ok': 0.5}),
+        floors={'shared-or-cyclic': 0.2, 'starstar': 0.12, 'wild-2': 0.06, 'exp-ok': 0.5}),
     Sub('mutate', check_mutate, gen=gen_mutate, quick=2500, thorough=8000,
-        floors={'wild-2': 0.1, 'wild-3': 0.1, 'exp-ok': 0.3}),
+        floors={'wild-2': 0.06, 'wild-3': 0.1, 'exp-ok': 0.3}),
     fuzzrun.fuzz_sub('fuzz-path-text', 'c01-path-text', runs=20000, campaigns=4,
                      corpus=os.path.join(boot.VERIF, 'fuzz', 'corpus', 'c01-path-text'), replay_sub='read'),
 ]
